@@ -727,14 +727,15 @@ class TlvModel(metaclass=TlvModelMeta):
         result = []
         for field in self._encoded_fields:
             if isinstance(field, ModelField):
-                result.append((field.name, field.__get__(self, None).asdict()))
+                val = field.__get__(self, None)
+                result.append((field.name, val.asdict() if val is not None else None))
             elif isinstance(field, RepeatedField):
                 result.append((field.name, field.aslist(self)))
             elif isinstance(field, MapField):
                 result.append((field.name, field.asdict(self)))
             elif isinstance(field, BytesField):
                 val = field.__get__(self, None)
-                if isinstance(val, str):
+                if val is None or isinstance(val, str):
                     result.append((field.name, val))
                 else:
                     # memoryview, bytearray, bytes
